@@ -20,7 +20,9 @@ P = r'harris_michael_list_based_set<Key, Policies\.\.\.>::'
 # C has none of these, so every such *implicit* operation is made an explicit call of a guard contract stub:
 #   guard_ptr X = Y;            -> struct guard X; G_INIT(X); G_COPY(X, Y);
 #   guard_ptr X;                -> struct guard X; G_INIT(X);
-#   guard_ptr X(e);             -> struct guard X; G_INIT(X); G_SET_PTR(X, e);
+#   guard_ptr X(e);             -> struct guard X; G_INIT(X); G_SET_PTR(X, e);   (raw-pointer constructor: precondition `pinned`, see harness.c)
+#   A = guard_ptr(e);           -> G_ASSIGN_PTR(A, e);    (temporary built from a raw pointer, move-assigned, destroyed)
+#   cell.compare_exchange_*(x, A, ..) -> ..(x, G_MP(A), ..)   (guard passed where a marked_ptr is expected)
 #   A = std::move(B);           -> G_MOVE(A, B);          (A, B guard lvalues named in spec['guards'])
 #   A = B;                      -> G_COPY(A, B);
 #   std::swap(A, B);            -> G_SWAP(A, B);
@@ -43,7 +45,9 @@ def guard_rules(s, lw):
         if n: lw.fire('guard:' + name, n)
     sub(r'\bguard_ptr\s+(\w+)\s*=\s*([^;]+);', r'struct guard \1; G_INIT(\1); G_COPY(\1, \2);', 'copy_ctor')
     sub(r'\bguard_ptr\s+(\w+)\s*;', r'struct guard \1; G_INIT(\1);', 'default_ctor')
-    sub(r'\bguard_ptr\s+(\w+)\(([^;]*)\);', r'struct guard \1; G_INIT(\1); G_SET_PTR(\1, \2);', 'ptr_ctor')
+    sub(r'\bguard_ptr\s+(\w+)\(([^;]*)\);', r'struct guard \1; G_INIT(\1); G_SET_PTR(\1, \2);', 'rawptr:ctor')
+    sub(r'(?<![\w.>])(%s)\s*=\s*guard_ptr\(([^;]*)\)\s*;' % alt, r'G_ASSIGN_PTR(\1, \2);', 'rawptr:assign')
+    sub(r'(\bcompare_exchange_(?:weak|strong)\(\s*[\w.]+\s*,\s*)(%s)(\s*,)' % alt, r'\1G_MP(\2)\3', 'cas_guard_arg')
     sub(r'(?<![\w.>])(%s)\s*=\s*std::move\((%s)\)\s*;' % (alt, alt), r'G_MOVE(\1, \2);', 'move_assign')
     sub(r'(?<![\w.>])(%s)\s*=\s*(%s)\s*;' % (alt, alt), r'G_COPY(\1, \2);', 'copy_assign')
     sub(r'\bstd::swap\((%s),\s*(%s)\)\s*;' % (alt, alt), r'G_SWAP(\1, \2);', 'swap')
@@ -223,7 +227,7 @@ UNIT = dict(
          pre_subst=[(r'node\* n = new node\(std::forward<Args>\(args\)\.\.\.\);', r'mptr n = N_NEW(args);', 'new_node'),
                     (r'delete n;', r'N_DELETE(n);', 'delete_node'), RET_IT_INFO],
          must_fire={'self_call:find': 1, 'subst:new_node': 1, 'subst:delete_node': 1, 'subst:ret_pair': 2, 'A_STORE': 1, 'A_CASW': 1,
-                    'guard:ptr_ctor': 1, 'guard:move_assign': 1, 'guard:backoff_call': 1, 'deref:n': 2, 'dtor': 2}),
+                    'guard:rawptr': 1, 'guard:move_assign': 1, 'guard:backoff_call': 1, 'deref:n': 2, 'dtor': 2}),
     dict(COMMON, id='emplace', file=F, sig=r'bool ' + P + r'emplace\(Args&&\.\.\. args\)',
          c_sig='static _Bool hms_emplace(struct hms* self, hkey args)', ret_type='_Bool',
          pre_subst=[(r'auto result = emplace_or_get\(std::forward<Args>\(args\)\.\.\.\);', r'struct iter result; _Bool result_second = hms_emplace_or_get(self, &result, args);', 'call_pair'),
@@ -235,11 +239,10 @@ UNIT = dict(
     dict(COMMON, id='erase_it', file=F, sig=r'auto ' + P + r'erase\(iterator pos\) -> iterator',
          c_sig='static void hms_erase_it(struct hms* self, struct iter* ret, struct iter pos)',
          guards=['pos.info.cur', 'pos.info.save', 'next_guard'],
-         pre_subst=[(r'compare_exchange_weak\(\s*expected, next_guard,', r'compare_exchange_weak(expected, G_MP(next_guard),', 'guard_to_marked_ptr'),
-                    (r'\bKey key =', 'hkey key =', 'key_type'),
+         pre_subst=[(r'\bKey key =', 'hkey key =', 'key_type'),
                     (r'return pos;', r'{ IT_MOVE_CTOR(ret, pos); return; }', 'ret_pos')],
-         must_fire={'self_call:find': 1, 'A_LOAD': 1, 'A_CASW': 2, 'method:reclaim': 1, 'guard:ptr_ctor': 1, 'guard:to_marked_ptr': 1, 'guard:move_assign': 1,
-                    'subst:guard_to_marked_ptr': 1, 'subst:ret_pos': 1, 'call:marked_ptr': 1, 'guard:backoff_call': 1, 'method:reset': 1, 'dtor': 1, 'dtor_at_return': 1}),
+         must_fire={'self_call:find': 1, 'A_LOAD': 1, 'A_CASW': 2, 'method:reclaim': 1, 'guard:rawptr': 1, 'guard:to_marked_ptr': 1,
+                    'subst:ret_pos': 1, 'call:marked_ptr': 1, 'guard:backoff_call': 1}),
     dict(COMMON, id='iter_inc', file=F, sig=r'auto ' + P + r'iterator::operator\+\+\(\) -> iterator&',
          c_sig='static void hms_iter_inc(struct iter* self)', guards=['info.cur', 'info.save', 'tmp_guard'], members=['info', 'list'],
          pre_subst=[(r'return \*this;', 'return;', 'ret_this')],
@@ -258,18 +261,17 @@ UNIT = dict(
          pre_subst=[(r'node\* n = new node\(std::forward<Args>\(args\)\.\.\.\);', r'mptr n = N_NEW(args);', 'new_node'),
                     (r'delete n;', r'N_DELETE(n);', 'delete_node'), RET_IT_INFO],
          must_fire={'self_call:find': 1, 'subst:new_node': 1, 'subst:delete_node': 1, 'subst:ret_pair': 2, 'A_STORE': 1, 'A_CASW': 1,
-                    'guard:ptr_ctor': 1, 'guard:move_assign': 1, 'guard:backoff_call': 1, 'deref:n': 2, 'dtor': 2, 'cut_loop': 1}),
+                    'guard:rawptr': 1, 'guard:move_assign': 1, 'guard:backoff_call': 1, 'deref:n': 2, 'dtor': 2, 'cut_loop': 1}),
     dict(COMMON, cut_loops={0: 'ERASE'}, id='erase_key_i', file=F, sig=r'bool ' + P + r'erase\(const Key& key\)',
          c_sig='static _Bool hms_erase_i(struct hms* self, hkey key)', ret_type='_Bool', guards=['info.cur', 'info.save'], members=['head'],
          must_fire={'self_call:find': 2, 'A_CASW': 2, 'method:reclaim': 1, 'guard:to_marked_ptr': 1, 'guard:backoff_call': 1, 'call:marked_ptr': 1, 'dtor': 1, 'dtor_at_return': 2, 'cut_loop': 1}),
     dict(COMMON, cut_loops={0: 'ERIT'}, id='erase_it_i', file=F, sig=r'auto ' + P + r'erase\(iterator pos\) -> iterator',
          c_sig='static void hms_erase_it_i(struct hms* self, struct iter* ret, struct iter pos)',
          guards=['pos.info.cur', 'pos.info.save', 'next_guard'],
-         pre_subst=[(r'compare_exchange_weak\(\s*expected, next_guard,', r'compare_exchange_weak(expected, G_MP(next_guard),', 'guard_to_marked_ptr'),
-                    (r'\bKey key =', 'hkey key =', 'key_type'),
+         pre_subst=[(r'\bKey key =', 'hkey key =', 'key_type'),
                     (r'return pos;', r'{ IT_MOVE_CTOR(ret, pos); return; }', 'ret_pos')],
-         must_fire={'self_call:find': 1, 'A_LOAD': 1, 'A_CASW': 2, 'method:reclaim': 1, 'guard:ptr_ctor': 1, 'guard:to_marked_ptr': 1, 'guard:move_assign': 1,
-                    'subst:guard_to_marked_ptr': 1, 'subst:ret_pos': 1, 'call:marked_ptr': 1, 'guard:backoff_call': 1, 'method:reset': 1, 'dtor': 1, 'dtor_at_return': 1, 'cut_loop': 1}),
+         must_fire={'self_call:find': 1, 'A_LOAD': 1, 'A_CASW': 2, 'method:reclaim': 1, 'guard:rawptr': 1, 'guard:to_marked_ptr': 1,
+                    'subst:ret_pos': 1, 'call:marked_ptr': 1, 'guard:backoff_call': 1, 'cut_loop': 1}),
     dict(COMMON, id='iter_inc_i', cut_loops=({0: 'INC'} if INC_LOOP else {}), file=F, sig=r'auto ' + P + r'iterator::operator\+\+\(\) -> iterator&',
          c_sig='static void hms_iter_inc_i(struct iter* self)', guards=['info.cur', 'info.save', 'tmp_guard'], members=['info', 'list'],
          pre_subst=[(r'return \*this;', 'return;', 'ret_this')],
@@ -325,6 +327,7 @@ UNIT = dict(
     'hms.iter.erase.frame': dict(deciding=True, text='erase(iterator) does not touch other live nodes'),
     'hms.iter.erase.guards': dict(deciding=False, text="after erase(iterator) only the argument's original and the returned iterator hold guards"),
     'hms.iter.erase.safe': dict(deciding=True, text='erase(iterator) dereferences only protected nodes'),
+    'hms.guard.raw_pinned': dict(deciding=True, text='a guard_ptr built from a raw pointer (no validation possible) protects its node only if the node is pinned at that moment: null, own unpublished node, already protected by a live guard of this thread, or the frozen successor of a guarded node that is still linked; a guard built from an unpinned pointer is never dereferenced, retired through or returned (erase(iterator): the successor guard must be taken BEFORE the unlink CAS) [SEQ and INT]'),
     'hms.iter.copy.independent': dict(deciding=True, text='copies / moved iterators are independently protected: advancing one leaves the other dereferenceable and well-formed'),
   },
   replays={
@@ -338,7 +341,7 @@ UNIT = dict(
     # F11: the schedule needs the hook between the two reads of cur->next in operator++ (units/hms/hook_f11.diff); without the hook the program exits 2
     'hms.iter.inc.progress': dict(src='native_f11.cpp', no_inputs=True),
   },
-  canaries=['find.true', 'find.false_end', 'find.false_greater', 'find.unlinked_two', 'find.restart_from_head', 'find.mid_start', 'find.start_unlinked', 'contains.true', 'contains.false', 'contains.helped', 'find_key.found', 'find_key.end', 'begin.empty', 'begin.nonempty', 'insert.true', 'insert.false', 'insert.at_head', 'insert.at_tail', 'insert.helped', 'emplace.true', 'emplace.false', 'erase.true', 'erase.false', 'erase.second_after_true', 'erase.helped', 'inc.fast', 'inc.fast_to_marked_successor', 'inc.fast_to_end', 'inc.cur_marked_linked', 'inc.cur_unlinked', 'inc.key_reinserted', 'inc.save_marked', 'inc.pred_changed', 'erase_it.direct', 'erase_it.refind', 'erase_it.cur_marked_linked', 'erase_it.cur_unlinked', 'erase_it.to_end', 'erase_it.to_marked_successor', 'copy.advanced', 'find_int.true', 'find_int.false_end', 'find_int.false_greater', 'insert_int.true', 'insert_int.false', 'erase_int.unlinked_by_helper', 'erase_int.unlinked_self', 'erase_int.false', 'erase_it_int.direct', 'erase_it_int.refind', 'erase_it_int.marked_by_other', 'inc_int.fast', 'inc_int.slow', 'inc_int.end'],
+  canaries=['find.true', 'find.false_end', 'find.false_greater', 'find.unlinked_two', 'find.restart_from_head', 'find.mid_start', 'find.start_unlinked', 'contains.true', 'contains.false', 'contains.helped', 'find_key.found', 'find_key.end', 'begin.empty', 'begin.nonempty', 'insert.true', 'insert.false', 'insert.at_head', 'insert.at_tail', 'insert.helped', 'emplace.true', 'emplace.false', 'erase.true', 'erase.false', 'erase.second_after_true', 'erase.helped', 'inc.fast', 'inc.fast_to_marked_successor', 'inc.fast_to_end', 'inc.cur_marked_linked', 'inc.cur_unlinked', 'inc.key_reinserted', 'inc.save_marked', 'inc.pred_changed', 'erase_it.direct', 'erase_it.refind', 'erase_it.cur_marked_linked', 'erase_it.cur_unlinked', 'erase_it.to_end', 'erase_it.to_marked_successor', 'erase_it.raw_guard_pinned', 'erase_it.raw_guard_unpinned_dropped', 'erase_it_int.raw_guard_pinned', 'copy.advanced', 'find_int.true', 'find_int.false_end', 'find_int.false_greater', 'insert_int.true', 'insert_int.false', 'erase_int.unlinked_by_helper', 'erase_int.unlinked_self', 'erase_int.false', 'erase_it_int.direct', 'erase_it_int.refind', 'erase_it_int.marked_by_other', 'inc_int.fast', 'inc_int.slow', 'inc_int.end'],
 )
 # development aid for mutation testing only: let mutants that change a rule count reach the obligations instead of stopping at 'extraction broke'
 if os.environ.get('HMS_NO_MUSTFIRE'):
